@@ -69,13 +69,18 @@ struct ProgOutcome {
     passes: u64,
     panicked: Option<String>,
     kept_gradients: u64,
+    /// derivative closures of user operations still alive at that point (each holds a clone of a token)
+    closures_alive: usize,
+    closures_built: usize,
 }
 
 /// Build, differentiate, drop, probe. Allocates nothing that outlives the call except the small outcome.
 fn exercise(p: &Program, plan: &Plan) -> ProgOutcome {
-    let mut out = ProgOutcome { mid: (0, 0), probes: 0, probe_failures: vec![], passes: 0, panicked: None, kept_gradients: 0 };
+    let mut out = ProgOutcome { mid: (0, 0), probes: 0, probe_failures: vec![], passes: 0, panicked: None, kept_gradients: 0, closures_alive: 0, closures_built: 0 };
+    closure_token_reset();
     let res = guard(|| {
         let mut handles: Vec<Option<Array>> = eval_corgi(p).into_iter().map(Some).collect();
+        let built = user_closures_alive();
         let mut kept: Vec<Array> = vec![];
         let mut passes = 0;
         for (start, seed) in &plan.passes {
@@ -109,6 +114,7 @@ fn exercise(p: &Program, plan: &Plan) -> ProgOutcome {
         }
         invlog_reset(false);
         let mid = ledger::live();
+        let alive = user_closures_alive();
         let mut fails = vec![];
         let mut probes = 0;
         for l in p.leaves() {
@@ -120,11 +126,13 @@ fn exercise(p: &Program, plan: &Plan) -> ProgOutcome {
                 fails.push((l, m));
             }
         }
-        (probes, fails, passes, nk, mid)
+        (probes, fails, passes, nk, mid, alive, built)
     });
     invlog_reset(false);
     match res {
-        Ok((pr, f, pa, nk, mid)) => {
+        Ok((pr, f, pa, nk, mid, alive, built)) => {
+            out.closures_alive = alive;
+            out.closures_built = built;
             out.mid = mid;
             out.probes = pr;
             out.probe_failures = f;
@@ -224,6 +232,18 @@ fn run_program(ctx: &mut Ctx, fam: &str, k: u64, r: &mut Rng) {
         ctx.violation(
             &format!("C18|{}|leaf-not-sole-owner", sub),
             format!("after dropping every result, Vec::from(n{}) panicked ({}): something still references the leaf's buffer\nprogram: {}\npasses: {:?} keep_gradients={} drop order {:?}", l, m, p.pretty(), plan.passes, plan.keep_gradients, plan.drop_order),
+        );
+    }
+    // every user-operation node holds a derivative closure, every such closure holds a clone of a token: with all
+    // results dropped, none may be left (a direct view of "no graph node remains", independent of the allocator ledger)
+    ctx.count("user_closures_built", o.closures_built as u64);
+    if o.closures_built > 0 {
+        ctx.count("programs_with_user_closures_released", 1);
+    }
+    if o.closures_alive > 0 {
+        ctx.violation(
+            &format!("C18|{}|user-closure-outlives-results", sub),
+            format!("with every result dropped and every gradient cleared, {} of the {} derivative closures handed to Array::op are still alive (a graph node outlived its handles)\nprogram: {}\npasses: {:?} drop order {:?}", o.closures_alive, o.closures_built, p.pretty(), plan.passes, plan.drop_order),
         );
     }
     if ledger::ENABLED {
